@@ -31,6 +31,29 @@ using std::swap;
 
 #define KLUDGE
 
+#ifdef XFEMM_VERIF
+// verification hook: append (kind, n, true relative residual, Precision, iterations) of every
+// solve to the file named by the environment variable XFEMM_VERIF_SOLVELOG
+static void xfemm_verif_solvelog(CBigLinProb *L, int iterations)
+{
+    const char *fn = getenv("XFEMM_VERIF_SOLVELOG");
+    if (fn == NULL || L->n == 0) return;
+    double *t = (double *)calloc(L->n, sizeof(double));
+    L->MultA(L->V, t);
+    double rr = 0, bb = 0;
+    for (int i = 0; i < L->n; i++)
+    {
+        rr += (L->b[i] - t[i]) * (L->b[i] - t[i]);
+        bb += L->b[i] * L->b[i];
+    }
+    free(t);
+    FILE *f = fopen(fn, "a");
+    if (f == NULL) return;
+    fprintf(f, "real %i %.17g %.17g %i\n", L->n, (bb == 0) ? sqrt(rr) : sqrt(rr / bb), L->Precision, iterations);
+    fclose(f);
+}
+#endif
+
 
 CEntry::CEntry()
 {
@@ -240,6 +263,9 @@ bool CBigLinProb::PCGSolve(int flag)
     int i;
     double res,res_o,res_new;
     double er,del,rho,pAp;
+#ifdef XFEMM_VERIF
+    int xfemm_verif_iterations = 0;
+#endif
 
     // quick check for most obvious sign of singularity;
     for(i=0; i<n; i++) if(M[i]->x==0)
@@ -298,6 +324,9 @@ bool CBigLinProb::PCGSolve(int flag)
 
         // have we converged yet?
         er=sqrt(res/res_o);
+#ifdef XFEMM_VERIF
+        xfemm_verif_iterations++;
+#endif
 //        prg2=(int) (20.*log10(er)/(log10(Precision)));
 //        if(prg2>prg1)
 //        {
@@ -311,6 +340,9 @@ bool CBigLinProb::PCGSolve(int flag)
 
     }
     while(er>Precision);
+#ifdef XFEMM_VERIF
+    xfemm_verif_solvelog(this, xfemm_verif_iterations);
+#endif
 
     return true;
 }
